@@ -44,6 +44,8 @@ func gen(args []string) {
 		genPos(w, tier, r)
 	case "SPLIT":
 		genSplit(w, tier, r)
+	case "QUOTE":
+		genQuote(w, tier, r)
 	default:
 		fmt.Fprintln(os.Stderr, "unknown channel", ch)
 		os.Exit(2)
